@@ -97,6 +97,8 @@ SETTINGS = {
     "none": ({}, {}),
     "const": ({"constants": {"k": 3.5}}, {"k": 3.5}),
     "const2": ({"constants": {"k": 3.5, "k2": 1.25}}, {"k": 3.5, "k2": 1.25}),
+    "const-zero": ({"constants": {"k2": 0.0}}, {"k2": 0.0}),
+    "const-zero-int": ({"constants": {"k": 0}}, {"k": 0.0}),
     "points": ({"points": {"lk": P1}}, {"lk": P1}),
     "const+points": ({"constants": {"k2": 1.25}, "points": {"lk": P1}}, {"k2": 1.25, "lk": P1}),
     "start": ({"runspecs": {"starttime": 1.0}}, {"start": 1.0}),
@@ -264,7 +266,7 @@ def run_case(case):
                 with open(os.path.join(proj.dir, "scenarios", "b.json"), "w") as f:
                     json.dump({sm: second}, f)
             b = core.new_bptk_here()
-        elif channel in ("session", "rest"):
+        elif channel in ("session", "rest", "session-after-run", "rest-after-run"):
             b = core.new_bptk_here()
             if kind == "dsl":
                 model = proj.dsl_model()
@@ -287,6 +289,13 @@ def run_case(case):
                 viol += [(c, d) for c, d in compare(df, eff, kind, "scenario %s" % name)]
                 if viol:
                     break
+        if channel.endswith("-after-run"):
+            # the scenario has been simulated before the settings arrive
+            df = b.run_scenarios(scenarios=["s1"], scenario_managers=[sm], equations=list(eqs), return_format="df")
+            viol += compare(df, eff0, kind, "scenario s1 before its settings")
+            channel = channel[:-len("-after-run")]
+        if viol:
+            pass
         elif channel == "session":
             spec = ref_spec(eff1) if kind == "dsl" else xref_spec(eff1)
             b.begin_session(scenarios=["s1"], scenario_managers=[sm], equations=list(eqs), settings=settings,
@@ -336,11 +345,11 @@ def run_case(case):
 
 def cases(tier):
     out = []
-    for channel in ("dict", "register_model", "file", "two-files", "session", "rest"):
+    for channel in ("dict", "register_model", "file", "two-files", "session", "rest", "session-after-run", "rest-after-run"):
         for base in BASES:
             for setting in SETTINGS:
                 out.append(("dsl", channel, base, setting))
-                if not any(x in setting for x in ("start", "stop", "dt", "runspec", "all")) and "const2" != setting:
+                if not any(x in setting for x in ("start", "stop", "dt", "runspec", "all")) and setting not in ("const2", "const-zero"):
                     if channel != "register_model":
                         out.append(("xmile", channel, base, setting))
     return out
@@ -362,7 +371,7 @@ def run(ctx):
                 ctx.violation("C07/%s/%s/%s/%s/%s" % (clause, c[0], c[1], c[2], c[3]), {"case": list(c)}, detail)
     ctx.finish({
         "evaluations": len(cs), "distinct_nontrivial": len(cs),
-        "rule": "complete product model kind {dsl, xmile} x channel {dict, register_model, file, two-files, session, rest} x manager base values "
+        "rule": "complete product model kind {dsl, xmile} x channel {dict, register_model, file, two-files, session, rest, session-after-run, rest-after-run} x manager base values "
                 "{none, constants, points, both} x scenario setting {none, constant(s), points, constant+points, start, stop, dt, all run specs, all}; "
                 "run specs for DSL models only; per case the overriding scenario s1 and its sibling s0 are compared with the direct build",
         "samples": [list(c) for c in cs[:3]] + [list(cs[len(cs) // 2])],
